@@ -40,7 +40,8 @@ def cases(draw, tier):
     ncot = 1
     for nl in spec['nonterminals'][spec['start']]: ncot *= spec['node_labels'][nl]
     cot = [draw(st.sampled_from((1.0, 1.0, 0.0, 2.0, -1.0, 0.5))) for _ in range(ncot)]
-    return {'spec': spec, 'configs': configs, 'cot': cot}
+    # now and then the command-line route: bin/sum_product.py prints gradients and expected counts (-g/-G/-e, weighted by -o)
+    return {'spec': spec, 'configs': configs, 'cot': cot, 'bin': draw(st.integers(0, 39)) == 0}
 
 
 def strategy(tier):
@@ -76,6 +77,9 @@ def check(case, ctx):
     shared = any(v >= 2 for v in uses.values())
     unreachable_factor = any(t not in used_reach for t in spec['terminals'])
     edge_on_ext = any(a in r['ext'] for r in spec['rules'] for e in r['edges'] for a in e['att'])
+    if case.get('bin'):
+        from . import c11
+        c11.check_bin_script(spec, ctx)
     ctx.label('dead-rule-first' if 'D' in spec0['nonterminals'] else None, 'shared-factor' if shared else None, 'unreachable-factor' if unreachable_factor else None,
               'edge-on-external' if edge_on_ext else None)
     names = list(spec['terminals'])
